@@ -75,6 +75,57 @@ A_HARMLESS = [
 ]
 
 
+L_BREAKING = [
+    ("live since >= -> >", "matched.add(event.created_at >= query.since)", "matched.add(event.created_at > query.since)"),
+    ("live until < -> <=", "matched.add(event.created_at < query.until)", "matched.add(event.created_at <= query.until)"),
+    ("empty filter matches everything", "if matched and all(matched):", "if all(matched):"),
+    ("all -> any", "if matched and all(matched):", "if matched and any(matched):"),
+    ("kinds membership inverted", "matched.add(event.kind in query.kinds)", "matched.add(event.kind not in query.kinds)"),
+    ("tag condition inverted", "matched.add(event.has_tag(tagname, values)[1] is not None)", "matched.add(event.has_tag(tagname, values)[1] is None)"),
+    ("kinds clause dropped", "            if query.kinds is not None:\n                matched.add(event.kind in query.kinds)\n", ""),
+]
+L_HARMLESS = [
+    ("kinds clause moved before the ids clause", None, None),
+]
+
+
+def live_part(lean):
+    from lib import translate_validators
+    src = open("/repo/nostr_relay/storage/base.py").read()
+    bad = 0
+    muts = [("breaking", m) for m in L_BREAKING]
+    k = "            if query.kinds is not None:\n                matched.add(event.kind in query.kinds)\n"
+    i = "            if query.ids is not None:\n                matched.add(event.id in query.ids)\n"
+    if src.count(k) == 1 and src.count(i) == 1:
+        muts.append(("harmless", ("kinds clause moved before the ids clause", "__REORDER__", None)))
+    for kind, m in muts:
+        name, old, new = m
+        if old == "__REORDER__":
+            mutated = src.replace(k, "").replace(i, k + i)
+        else:
+            if src.count(old) != 1:
+                print("SKIP   %-45s (pattern occurs %d times in the current source)" % (name, src.count(old)))
+                continue
+            mutated = src.replace(old, new)
+        d = tempfile.mkdtemp(prefix="tiemut-")
+        try:
+            os.makedirs(os.path.join(d, "nostr_relay", "storage"))
+            open(os.path.join(d, "nostr_relay", "storage", "base.py"), "w").write(mutated)
+            r = translate_validators.run_live(d, lean)
+        finally:
+            shutil.rmtree(d, ignore_errors=True)
+        failed = set(r["failed_names"])
+        if kind == "breaking":
+            ok = bool(failed)
+            print("%s %-45s broke %s%s" % ("ok    " if ok else "MISSED", name, sorted(failed),
+                                           "" if not r["unavailable"] else " unavailable=%r" % r["unavailable"]))
+        else:
+            ok = r["status"] == "checked"
+            print("%s %-45s status %s %s" % ("ok    " if ok else "ALARM ", name, r["status"], sorted(failed) or r["unavailable"] or ""))
+        bad += not ok
+    return bad
+
+
 def auth_part(lean):
     from lib import translate_validators
     src = open("/repo/nostr_relay/auth.py").read()
@@ -136,7 +187,7 @@ def validators_part(lean):
 def main():
     lean = os.environ.get("VERIF_LEAN") or os.path.join(HERE, "lean")
     src = open("/repo/nostr_relay/storage/kv.py").read()
-    bad = validators_part(lean) + auth_part(lean)
+    bad = validators_part(lean) + auth_part(lean) + live_part(lean)
     for kind, muts in (("breaking", BREAKING), ("harmless", HARMLESS)):
         for m in muts:
             name, old, new = m[0], m[1], m[2]
